@@ -271,6 +271,64 @@ def check_c01(tier):
 
 # ------------------------------------------------------------------------------------------- C02
 
+def c02_named_chains(V):
+    """override chains whose fixture NAME is unusual: it starts with `test_` (a fixture is a fixture whatever it is called), it is
+    `request`-like, a keyword-like identifier, non-ASCII; root conftest defines it, sub/conftest overrides it requesting its own
+    name, sub/deeper/conftest overrides again; tests at every depth.  Parameter -> next outward, never itself; every test binds
+    to the innermost override; references of each link = the usages that navigate to it, none twice."""
+    names = ["test_client", "test_", "tests", "request_", "self_", "fixture", "pytest", "d\u00e9p\u00f4t", "T", "test_client2"]
+    cases, ctx = [], {}
+    for nm in names:
+        for wrapped in (False, True):
+            sig = "(\n    %s,\n)" % nm if wrapped else "(%s)" % nm
+            files = {
+                "/vwsn/conftest.py": "import pytest\n\n\n@pytest.fixture\ndef %s():\n    return 0\n" % nm,
+                "/vwsn/test_top.py": "def test_top(%s):\n    pass\n" % nm,
+                "/vwsn/sub/conftest.py": "import pytest\n\n\n@pytest.fixture\ndef %s%s:\n    return 1\n" % (nm, sig),
+                "/vwsn/sub/test_mid.py": "def test_mid(%s):\n    pass\n" % nm,
+                "/vwsn/sub/deeper/conftest.py": "import pytest\n\n\n@pytest.fixture\ndef %s%s:\n    return 2\n" % (nm, sig),
+                "/vwsn/sub/deeper/test_low.py": "def test_low(%s):\n    pass\n" % nm,
+            }
+            ops = [{"op": "analyze", "path": p, "text": t} for p, t in files.items()]
+            pl, pc = (5, 4) if wrapped else (4, 4 + len(nm.encode("utf-8")) + 1)      # byte columns (the implementation's unit)
+            q = [("param_mid", {"op": "goto", "path": "/vwsn/sub/conftest.py", "line": pl, "col": pc}),
+                 ("param_low", {"op": "goto", "path": "/vwsn/sub/deeper/conftest.py", "line": pl, "col": pc}),
+                 ("test_top", {"op": "goto", "path": "/vwsn/test_top.py", "line": 0, "col": 13}),
+                 ("test_mid", {"op": "goto", "path": "/vwsn/sub/test_mid.py", "line": 0, "col": 13}),
+                 ("test_low", {"op": "goto", "path": "/vwsn/sub/deeper/test_low.py", "line": 0, "col": 13}),
+                 ("refs_top", {"op": "refs", "path": "/vwsn/conftest.py", "line1": 5, "name": nm}),
+                 ("refs_mid", {"op": "refs", "path": "/vwsn/sub/conftest.py", "line1": 5, "name": nm}),
+                 ("refs_low", {"op": "refs", "path": "/vwsn/sub/deeper/conftest.py", "line1": 5, "name": nm})]
+            cid = len(cases)
+            ctx[cid] = (nm, wrapped, files, [k for k, _ in q], len(files))
+            cases.append({"id": cid, "ops": ops + [o for _, o in q]})
+    for res in C.run_harness(cases):
+        nm, wrapped, files, keys, nf = ctx[res["id"]]
+        V.count()
+        V.nontriv(("named_chain", nm, wrapped))
+        a = dict(zip(keys, res["res"][nf:]))
+
+        def f(x):
+            return x["file"] if isinstance(x, dict) and "file" in x else x
+
+        def rf(x):
+            return sorted((u["file"], u["line"]) for u in x) if isinstance(x, list) else x
+        want = {"param_mid": "/vwsn/conftest.py", "param_low": "/vwsn/sub/conftest.py", "test_top": "/vwsn/conftest.py",
+                "test_mid": "/vwsn/sub/conftest.py", "test_low": "/vwsn/sub/deeper/conftest.py"}
+        pline = 6 if wrapped else 5
+        want_refs = {"refs_top": [("/vwsn/sub/conftest.py", pline), ("/vwsn/test_top.py", 1)],
+                     "refs_mid": [("/vwsn/sub/deeper/conftest.py", pline), ("/vwsn/sub/test_mid.py", 1)],
+                     "refs_low": [("/vwsn/sub/deeper/test_low.py", 1)]}
+        got = {k: f(a[k]) for k in want}
+        got_refs = {k: rf(a[k]) for k in want_refs}
+        if got != want or got_refs != {k: sorted(v) for k, v in want_refs.items()}:
+            V.violation({"fixture_name": nm, "wrapped_signature": wrapped, "files": files, "navigation": got, "expected_navigation": want,
+                         "references": got_refs, "expected_references": want_refs},
+                        "an override chain of a fixture with an unusual name: navigation from the self-named parameter / from the tests, or "
+                        "the references of a link, are not those of the chain")
+    return len(cases)
+
+
 def check_c02(tier):
     """override chains: parameter -> next outward, never itself; function name -> the override itself"""
     V = C.Verdict("C02", tier, "model_checking")
@@ -345,6 +403,7 @@ def check_c02(tier):
             V.sample({"shape": case["shape"], "order": case["order"], "queries": len(answers)})
 
     replayed = drive(meta, build, judge, only=replay_filter())
+    replayed += c02_named_chains(V)
     if not os.environ.get("VERIF_REPLAY"):
         import binlayouts
         nb, _ = binlayouts.run(V, tier, {"c02"}, cfg="Layouts_chain.cfg")
